@@ -159,6 +159,15 @@ def raw_strings(rng, svcs):
     return struct.pack('>HHHHHH', 3, 0, 1, len(rr), 0, 0) + q + b''.join(rr)
 
 
+def short_address(rng, host):
+    """an address record whose rdata is cut short by the end of the datagram (rdlength promises 16 / 4 bytes): the decoder hands out
+    whatever bytes are left - also an 'AAAA' of 4 bytes that look like a link-local IPv4 address"""
+    ty = rng.choice([28, 28, 1])
+    left = rng.choice([4, 4, 0, 1, 8, 15, 3])
+    body = bytes(rng.choice([0xA9, 0xFE, 0x01, 0x02]) for _ in range(left)) if left != 4 else bytes([0xA9, 0xFE, rng.randrange(256), rng.randrange(256)])
+    return struct.pack('>HHHHHH', 0, 0x8400, 0, 1, 0, 0) + name_bytes(host) + struct.pack('>HHIH', ty, 0x8001, 120, 16 if ty == 28 else 4) + body
+
+
 def oversize(rng, base):
     n = rng.choice([8966, 8967, 8967, 9000, 20000])
     return base + bytes(n - len(base)) if n > len(base) else base
@@ -170,7 +179,7 @@ def gen_stream(rng, svcs, peers):
     prev = None
     for _ in range(rng.choice([3, 6, 10, 16])):
         kind = rng.choice(['query', 'query', 'response', 'response', 'mut-q', 'mut-r', 'mut-r', 'random', 'hostile', 'legacy-utf8', 'oversize', 'repeat',
-                           'header', 'follow-up', 'raw-strings'])
+                           'header', 'follow-up', 'raw-strings', 'short-address'])
         if kind == 'query':
             d = valid_query(rng, svcs)
         elif kind == 'response':
@@ -193,6 +202,8 @@ def gen_stream(rng, svcs, peers):
             d = valid_query(rng, svcs)
         elif kind == 'raw-strings':
             d = raw_strings(rng, svcs)
+        elif kind == 'short-address':
+            d = short_address(rng, rng.choice(peers)['server'])
         elif kind == 'oversize':
             d = oversize(rng, valid_query(rng, svcs) if rng.random() < 0.5 else valid_response(rng, peers))
         else:
@@ -205,10 +216,22 @@ def gen_stream(rng, svcs, peers):
     return out
 
 
-def gen_scenario(rng):
+def gen_scenario(rng, v6=False):
     svcs = [svc(f"s{i}", rng.choice([TA, TA, TB]), rng.choice(['hs.local.', f"h{i}.local."]), i, v6=rng.random() < 0.3) for i in range(rng.choice([0, 1, 2, 3]))]
     peers = [svc(f"p{i}", TB, f"hp{i}.local.", 10 + i, v6=rng.random() < 0.5) for i in range(2)]
-    return dict(svcs=svcs, peers=peers, stream=gen_stream(rng, svcs or peers, peers), browser=rng.random() < 0.7, lookup=rng.random() < 0.5,
+    stream = gen_stream(rng, svcs or peers, peers)
+    if v6:
+        # the IPv6 socket: source tuples carry a scope id, address records learned there are scoped; a lookup for the first peer is in
+        # progress while a cut-short address record of its host and then its complete announcement arrive
+        o = c03.own_records(peers[0])
+        from zeroconf import DNSOutgoing
+        ann = DNSOutgoing(0x8400)
+        for r in [o['srv'], o['txt']] + o['addrs']:
+            ann.add_answer_at_time(mk(r), 0)
+        stream = [dict(dt=5, kind='short-address', data=short_address(rng, peers[0]['server']), src='fe80::7', port=5353),
+                  dict(dt=rng.choice([10, 300, 1200]), kind='response', data=ann.packets()[0], src='fe80::7', port=5353)] + \
+                 [dict(d, dt=d['dt'] + 1500, src='fe80::' + d['src'][-1]) for d in stream]
+    return dict(svcs=svcs, peers=peers, stream=stream, browser=rng.random() < 0.7, lookup=True if v6 else rng.random() < 0.5, v6=v6,
                 mcast=[rng.choice([20, 70, 120]) for _ in range(60)], tcd=[rng.choice([400, 450, 500]) for _ in range(20)],
                 fq=[rng.choice([20, 57, 120]) for _ in range(6)])
 
@@ -216,6 +239,25 @@ def gen_scenario(rng):
 # ---------------------------------------------------------------------------------------------------------------
 # implementation
 # ---------------------------------------------------------------------------------------------------------------
+
+import contextlib
+
+
+@contextlib.contextmanager
+def watchdog(res, d):
+    """a datagram is handled in milliseconds: 5 s without returning is a handler that does not finish"""
+    import signal
+
+    def too_long(signum, frame):
+        raise RuntimeError('datagram_received did not return within 5 s')
+    old_handler = signal.signal(signal.SIGALRM, too_long)
+    signal.setitimer(signal.ITIMER_REAL, 5.0)
+    try:
+        yield
+    finally:
+        signal.setitimer(signal.ITIMER_REAL, 0)
+        signal.signal(signal.SIGALRM, old_handler)
+
 
 def run_scenario(sc):
     import asyncio
@@ -228,7 +270,7 @@ def run_scenario(sc):
         async def main():
             nr = NodeRecorder(sim).install(front=True)
             holder['nr'] = nr
-            a = await sim.start_host('A', '10.0.0.1')
+            a = await sim.start_host('A', '10.0.0.1', 'fe80::1', families=('v6',) if sc.get('v6') else ('v4',))
             nr.attach(a)
             sim.randoms['mcast_delay'] = list(sc['mcast'])
             sim.randoms['tc_delay'] = list(sc['tcd'])
@@ -261,7 +303,9 @@ def run_scenario(sc):
                 await sim.sleep_until(t0 + d['dt'])
                 mark = len(sim.net.log)
                 nlab = len(nr.labels)
-                sim.net.inject(a, d['data'], (d['src'], d['port']))
+                src = (d['src'], d['port'], 0, 3) if sc.get('v6') else (d['src'], d['port'])
+                with watchdog(res, d):
+                    sim.net.inject(a, d['data'], src)
                 res['reactions'].append((d['kind'], len(d['data']), len(sim.net.log) - mark, len(nr.labels) - nlab))
             await sim.sleep(4000)
             # --- is it still alive? a fresh query must be answered, a fresh announcement must reach the browser ---
@@ -269,14 +313,14 @@ def run_scenario(sc):
             mark = len(sim.net.log)
             q = DNSOutgoing(const._FLAGS_QR_QUERY, id_=4242)
             q.add_question(DNSQuestion(probe_svc['name'], const._TYPE_SRV, const._CLASS_IN))
-            sim.net.inject(a, q.packets()[0], ('10.0.0.77', 5353))
+            sim.net.inject(a, q.packets()[0], ('fe80::77', 5353, 0, 3) if sc.get('v6') else ('10.0.0.77', 5353))
             ncb = len(res['callbacks'])
             fresh = svc('fresh', TB, 'hfresh.local.', 12)
             o = c03.own_records(fresh)
             ann = DNSOutgoing(0x8400)
             for r in [o['ptr'], o['srv'], o['txt']] + o['addrs']:
                 ann.add_answer_at_time(mk(r), 0)
-            sim.net.inject(a, ann.packets()[0], ('10.0.0.78', 5353))
+            sim.net.inject(a, ann.packets()[0], ('fe80::78', 5353, 0, 3) if sc.get('v6') else ('10.0.0.78', 5353))
             await sim.sleep(1500)
             res['answered'] = any(any(r.type == 33 and r.name == probe_svc['name'] and r.ttl > 0 for r in c09.parse(data).answers())
                                   for (ms, host, dest, data, idx) in sim.net.log[mark:] if host == 'A' and not c09.parse(data).is_query())
@@ -339,6 +383,16 @@ def run(ctx):
             ctx.hist('size:' + ('>8966' if nbytes > 8966 else '<=8966'))
             ctx.hist('reaction:' + ('sends' if sent else 'silent'))
         ctx.hist(f"services:{len(sc['svcs'])}")
+    # the same on an IPv6 socket (scoped source tuples, scoped address records): decided by the oracle only - the byte-level model has
+    # one IPv4 socket
+    for _ in range(60 if ctx.tier == 'quick' else 800):
+        sc = gen_scenario(rng, v6=True)
+        res = run_scenario(sc)
+        why = oracle(sc, res)
+        if why:
+            fails.append((sc, why))
+        ctx.count(repr(sc), nontrivial=True)
+        ctx.hist('ipv6-stream')
     ctx.sample(c09.jsonable(scenarios[0]))
     ctx.cov['rule'] = ("one instance (0-3 registered services plus a probe service, optionally a browser and a 3 s lookup in progress) receives streams of "
                        "3-16 datagrams: valid queries (1-3 questions, QU/QM, TC, known answers) and responses (peer records incl. HINFO, TTL 0/1), "
